@@ -160,8 +160,8 @@ def run_shard(args):
             # seeded search, failing only on that signature; the last failing
             # case Hypothesis visits is the smallest one.
             if do_shrink:
-                for sig, rec in list(st.failures.items()):
-                    if rec['origin'] != 'generated':
+                for nsig, (sig, rec) in enumerate(sorted(st.failures.items())):
+                    if rec['origin'] != 'generated' or nsig >= 4:
                         continue
                     best = {'case': None, 'calls': 0, 'detail': None}
 
@@ -275,7 +275,7 @@ def main(argv=None):
     nshards = max(1, a.shards)
     per = budget // nshards
     extra = budget - per * nshards
-    shrink_cap = 3000 if a.tier == 'quick' else 20000
+    shrink_cap = 600 if a.tier == 'quick' else 5000
 
     # corpus (replay tier) first, in the parent
     st = ShardState()
